@@ -1,13 +1,15 @@
 import EinxModel.Driver.Util
 import EinxModel.Driver.Cse
 import EinxModel.Solve.CseTrees
+import EinxModel.Solve.CseCheck
 open Lean Einx.Driver Einx.Solve
 
 /-! Request kind `cse_trees` (C02 / C16): the model of the whole of `stage2/cse.py` on stage-2 trees.
 
 Request: `{"kind":"cse_trees","roots":[tree|null,…],"cse_concat":bool,"cse_in_brackets":bool}` (tree JSON as for
 `value_range`).  Answer: `{"ok":true,"out":[tree|null,…],"cands":[{"key":str,"occs":[[[root,path…],…],…]},…]}` or
-`{"ok":false,"error":msg}` when the model reaches one of the exceptions of the real code. -/
+`{"ok":false,"error":msg}` when the model reaches one of the exceptions of the real code.
+`cse_check` (same request fields): `{"wf","used_ok","pairs_ok","check","events","used"}`. -/
 namespace Einx.Driver.CseTrees
 open Einx.Solve.CseT
 
@@ -41,6 +43,15 @@ def handle (j : Json) : R Json := do
       pure (Json.mkObj [("ok", Json.bool true), ("out", rootsJson out),
                         ("cands", jArr ((candidates opts roots).map candJson))])
     | .error e => pure (Json.mkObj [("ok", Json.bool false), ("error", Json.str e)])
+  | "cse_check" =>
+    -- the decidable side conditions of `cseTrees_preserves_sols_partial` (Props/C02Cse.lean) on this input
+    let roots ← parseRoots j
+    let opts ← parseOpts j
+    let evs := cseEvents opts roots
+    let nUsed := (evs.filter (fun e => match e with | .used _ _ _ _ => true | _ => false)).length
+    pure (Json.mkObj [("wf", Json.bool (wfForest roots)), ("used_ok", Json.bool (evs.all usedOK)),
+                      ("pairs_ok", Json.bool (evs.all (fun a => evs.all (fun b => pairOK a b)))),
+                      ("check", Json.bool (cseCheck opts roots)), ("events", jNat evs.length), ("used", jNat nUsed)])
   | k => throw s!"unknown cse_trees kind {k}"
 
 end Einx.Driver.CseTrees
